@@ -47,7 +47,10 @@ RULE = ("paired runs of the real drivers on small planted low-rank problems (ord
         "guess pattern (positive; exact zeros in the first / a middle / the last factor in rows with non-empty data; "
         "a zero column; entries below kappatol=1e-10) x interval on 3-way problems, rank >= 2, >= 3 outer iterations; "
         "CP-APR MU's kappa fix-up observed on real runs (normalize / redistribute / calculate_phi recorded) against the "
-        "model op for the same guess patterns; same global seed twice (bitwise, except where ARPACK's own start "
+        "model op for the same guess patterns; the same NUMBERS as float64 / int64 / int32 / int16 / uint8 / float32 dense "
+        "tensors from C- and F-ordered source arrays, as sparse tensors with float and with integer values, and integer data "
+        "times 2 / 3 / 1000, with magnitudes at which squares and sums of squares leave the narrow dtype (uint8 60..250, int16 "
+        "200..3e4, int32 3e4..1.5e9, int64 2e9..3e10), for all seven drivers (fit, iterations, ranks, model tensor); same global seed twice (bitwise, except where ARPACK's own start "
         "vector enters: 1e-8) and different seeds (different starts), the drawn matrices against the stream model; "
         "scale factors {1e-9,1e-6,1e-3,0.5,3,1e3,1e6,1e9} (absolute thresholds only show far from 1) for cp_als "
         "(3..6 outer iterations, stoptol 0 / 1e-4 / 1e-3 on the scale-free fit, given and seeded random start, dense "
@@ -57,7 +60,7 @@ RULE = ("paired runs of the real drivers on small planted low-rank problems (ord
         "CP-APR / GCP (Poisson / GCP losses are not scale-equivariant; with a fixed guess gcp_opt is not either); all 6 mode relabellings for "
         "N=3 of data, guess, ranks and dimorder for cp_als, tucker_als, hosvd (sequential and not) and gcp_opt "
         "(cp_apr has a fixed mode order and is excluded). A mismatch above tolerance is a violation unless the same "
-        "driver amplifies a 1e-13 relative perturbation of the data (same representation) to within a factor 100 of "
+        "driver amplifies a 1e-13 / 1e-12 relative perturbation of the data (same representation) to within a factor 100 of "
         "it (tag illcond). non-trivial = both runs returned a model, the problem has more than one cell per mode and "
         "the two presentations really differ; distinct = distinct case hash")
 ASSUMPTIONS = [
@@ -70,6 +73,10 @@ ASSUMPTIONS = [
     "only up to rounding (observed 1e-14), so those runs are compared at 1e-8 instead of bitwise",
     "np.random.uniform(0,1,(r,c)) consumes r*c doubles of the global legacy stream and fills the matrix row by row "
     "(checked on every seeded run against RandomState(seed).uniform(size=total))",
+    "float32 data: tensor.norm()/sptensor.norm() accumulate in float32 (np.linalg.norm keeps the dtype), so fit and "
+    "normresidual of a float32 presentation carry float32 rounding (observed 1e-7 / 1e-4 relative; reported as a "
+    "candidate): those two numbers are compared at 1e-3 for float32 pairs (model tensor at 1e-8, stop decisions not "
+    "compared); every integer dtype is compared at the usual 1e-8",
     "L-BFGS-B (scipy) is a deterministic function of the objective/gradient values it is given",
     "C18_scale_cpals_run (whole-run scale equivariance of CP-ALS) is proved for the C09 model of cp_als.py in exact "
     "arithmetic, assuming both runs return, norm() != 0, the MTTKRP / innerprod interface laws (C02), the solver "
@@ -98,6 +105,8 @@ def make_problem(case):
     kind = case.get("kind", "gauss")
     if kind == "gauss":
         fac = [rs.uniform(0.2, 1.0, (s, R)) * rs.choice([-1.0, 1.0], (s, R)) for s in shape]
+        if case.get("nonneg"):
+            fac = [np.abs(f) for f in fac]
         lam = np.linspace(3.0, 1.5, R)
         X = ttb.ktensor(fac, lam).full().data.copy()
         nrm = np.linalg.norm(X)
@@ -273,9 +282,10 @@ def sensitivity(alg, X, rep, case, **kw):
     """How much does this driver amplify a rounding-sized perturbation of the data (same representation)?"""
     base = run_alg(alg, as_data(X, rep), case, **kw)
     worst = 0.0
-    for t in range(2):
+    for t in range(16):  # only run for pairs above tolerance; a discrete branch flip (observed with probability ~0.4
+        # per perturbation for CP-APR PQNR variables sitting at their bound) has to show in one of them
         rs = _rs(case["dseed"] + 991 + t)
-        Xp = X * (1.0 + 1e-13 * rs.standard_normal(X.shape))
+        Xp = X * (1.0 + (1e-13 if t % 2 == 0 else 1e-12) * rs.standard_normal(X.shape))
         r = run_alg(alg, as_data(Xp, rep), case, **kw)
         if r.get("reject") or base.get("reject"):
             return float("inf")
@@ -923,7 +933,7 @@ IFACE = {
     "cp_als": {"iface": {"ndims", "shape", "norm", "mttkrp", "innerprod", "nvecs", "__class__"}, "stored": set()},
     "tucker_als": {"iface": {"ndims", "shape", "norm", "ttm", "nvecs"}, "stored": set()},
     # hosvd / tucker_als validate the requested ranks against `shape` (metadata: Query.shape)
-    "hosvd": {"iface": {"ndims", "shape", "__pow__", "__sub__", "copy"}, "stored": set()},
+    "hosvd": {"iface": {"ndims", "shape", "norm", "double", "__pow__", "__sub__", "copy"}, "stored": set()},  # dense-only driver: `double()` / `**` / `-` read the values as an array
     "cp_apr": {"iface": {"ndims", "shape", "norm", "innerprod", "__lt__", "__class__"},
                "stored": {"subs", "vals", "nnz", "order", "to_tenmat"}},
     "gcp": {"iface": {"ndims", "shape", "norm", "__class__", "copy"}, "stored": {"data", "__imul__"}},
@@ -1134,5 +1144,125 @@ class MuFixup(Family):
         return out
 
 
+# --- same numbers, different dtype / memory layout ------------------------------------------------------------
+# magnitude per dtype chosen so that squares / sums of squares / products leave the dtype's range while every
+# entry is exactly representable in it AND in float64
+F32_TOL = float(__import__('os').environ.get('C18_F32_TOL', '1e-3'))  # see ASSUMPTIONS (float32 norm)
+DTYPE_MAG = {"int64": [3e10, 2e9], "int32": [3e4, 1.5e9], "int16": [200, 3e4], "uint8": [60, 250],
+             "float32": [50, 4000]}
+
+
+class Dtype(Family):
+    """The same NUMBERS presented as float64 / int64 / int32 / int16 / uint8 / float32 dense tensors built from C-
+    or F-ordered source arrays, or as a sparse tensor with float or integer values, and integer data scaled by a
+    positive integer: same model, fit, ranks and iteration counts."""
+    name = "dtype"
+    theorems = ("C18_repr_independent", "C18_repr_denote", "C18_repr_shape_is_metadata", "C18_scale_fit",
+                "C18_scale_hosvd_rank")
+
+    def gen(self, rng, tier):
+        out = []
+        for rep_no in range(1 if tier == "quick" else 4):
+            for alg in ALGS_ALL:
+                for dt in DTYPE_MAG:
+                    c = base_case(rng, tier, alg, n=rng.choice([2, 3, 3]))
+                    c["dtype"] = dt
+                    c["mag"] = DTYPE_MAG[dt][(rep_no + len(out)) % 2]
+                    c["nonneg"] = dt == "uint8" or c.get("kind") == "counts"
+                    if alg == "tucker_als":
+                        c["maxiters"] = 4
+                    if alg == "cp_als":
+                        c["maxiters"] = 6
+                    if alg == "hosvd":
+                        c["detail"] = [rng.choice([3e-2, 1e-2])]
+                        c["noise"] = 1e-2
+                        c["tol"] = rng.choice([0.02, 0.05, 0.2])
+                    out.append(c)
+        return out
+
+    @staticmethod
+    def integer_data(c):
+        X0, init = make_problem(c)
+        if c.get("kind") == "counts":
+            top = {"uint8": 255, "int16": 32767, "float32": 2 ** 24}.get(c["dtype"], 2 ** 31 - 1)
+            Xi = np.minimum(np.round(X0), top)
+        else:
+            if c.get("nonneg"):
+                X0 = np.abs(X0)
+            Xi = np.round(X0 / np.abs(X0).max() * c["mag"])
+        return Xi, init
+
+    def evaluate(self, cases):
+        out = []
+        for c in cases:
+            alg, dt = c["alg"], c["dtype"]
+            Xi, init = self.integer_data(c)
+            tags = [alg, dt, f"mag={c['mag']:g}" if c.get("kind") != "counts" else "counts"]
+            kw = dict(init=init_for(alg, c, init))
+            base = run_alg(alg, ttb.tensor(np.array(Xi, dtype=np.float64, order="C")), c, **kw)
+            pres = [("float64-F", lambda: ttb.tensor(np.array(Xi, dtype=np.float64, order="F")), 1),
+                    (dt + "-C", lambda: ttb.tensor(np.array(Xi, order="C").astype(dt, order="C")), 1),
+                    (dt + "-F", lambda: ttb.tensor(np.array(Xi, order="F").astype(dt, order="F")), 1)]
+            sparse_ok = alg in ALGS_CP or alg == "tucker_als"
+            if sparse_ok:
+                pres.append(("sparse-float64", lambda: as_data(Xi, "sparse"), 1))
+                pres.append(("sparse-" + dt, lambda: ttb.tensor(Xi.astype(dt)).to_sptensor(), 1))
+            if alg in ("cp_als", "tucker_als", "hosvd") and dt != "float32":
+                # positive integer scaling of integer data, still exactly representable (int64 holds it)
+                for k in (3, 1000):
+                    if np.abs(Xi).max() * k < 2 ** 52:
+                        pres.append((f"int64-x{k}", lambda k=k: ttb.tensor((Xi * k).astype(np.int64)), k))
+                if np.abs(Xi).max() * 2 <= {"int64": 2 ** 62, "int32": 2 ** 31 - 1, "int16": 32767, "uint8": 255}[dt]:
+                    pres.append((f"{dt}-x2", lambda: ttb.tensor((Xi * 2).astype(dt)), 2))
+            impl = {"float64-C": brief(base)}
+            worst, what, at, bad = 0.0, "", None, None
+            for label, build, k in pres:
+                r = run_alg(alg, build(), c, **kw)
+                impl[label] = brief(r)
+                if bool(r.get("reject")) != bool(base.get("reject")):
+                    bad = f"{alg}: the presentation {label} {'raises ' + str(r.get('exc')) if r.get('reject') else 'returns a model'}, float64 does not"
+                    break
+                if r.get("reject"):
+                    continue
+                f32 = "float32" in label
+                if f32:
+                    # norm() accumulates in the data's precision: the FIT of float32 data carries float32 rounding
+                    # (reported as a candidate); model tensor at the usual tolerance, stop decisions not compared
+                    w, wh = compare(base, r, scale=k, nums=False, ints=False)
+                    for key in base["nums"]:
+                        v = num_rel(base["nums"][key] * (k if key == "normresidual" else 1.0), r["nums"][key])
+                        if v * (TOL / F32_TOL) > w:
+                            w, wh = v * (TOL / F32_TOL), f"{key} (float32: {v:.1e} against {F32_TOL:g})"
+                else:
+                    w, wh = compare(base, r, scale=k)
+                tol = TOL_SCALE if (alg == "cp_als" and k != 1) else TOL
+                if w / tol > worst:
+                    worst, what, at = w / tol, f"{label}: {wh} ({w:.2e})", label
+            if base.get("reject") and bad is None:
+                out.append(Verdict("ok", "", impl, None, None, tags + ["both-reject"], False))
+                continue
+            if bad:
+                out.append(Verdict("violation", bad, impl, None, None, tags))
+                continue
+            if "float32" in dt:
+                tags.append("float32-norm")
+            Xf = np.array(Xi, dtype=np.float64)
+            out.append(judge(worst * TOL, what, TOL, tags, f"{alg} float64 vs {at}",
+                             lambda: sensitivity(alg, Xf, "dense", c, **kw), impl))
+        return out
+
+    def shrink(self, case):
+        if len(case["shape"]) > 2:
+            c = dict(case)
+            c["shape"] = case["shape"][:-1]
+            if "ranks" in c:
+                c["ranks"] = c["ranks"][:-1]
+            yield c
+        if case.get("maxiters", 1) > 1:
+            c = dict(case)
+            c["maxiters"] = case["maxiters"] - 1
+            yield c
+
+
 def families():
-    return [Repr(), Print(), Seed(), Scale(), Relabel(), Iface(), AprObserve(), MuFixup()]
+    return [Repr(), Print(), Seed(), Scale(), Relabel(), Iface(), AprObserve(), MuFixup(), Dtype()]
